@@ -182,10 +182,28 @@ def shape_only():
     return out
 
 
+def deep_nests():
+    """one built-in constructor nested 60 times (depth-related behaviour of the registry), and Compact of the unit type"""
+    out = []
+    n = 60
+    ty, some, tree = 'u8', '7u8', '7'
+    for _ in range(n):
+        ty, some, tree = 'Option<%s>' % ty, 'Some(%s)' % some, 'V:Some#1{_:%s}' % tree
+    out.append(T(ty, [('None', 'V:None#0{}', 0), (some, tree, 1)], depth=n))
+    ty, one, tree = 'u32', '5u32', '5'
+    for _ in range(n):
+        ty, one, tree = 'Vec<%s>' % ty, 'vec![%s]' % one, 'S[%s]' % tree
+    out.append(T(ty, [('Vec::new()', 'S[]', 0), (one, tree, 1)], depth=n))
+    out.append(T('scale::Compact<()>', [('scale::Compact(())', 'K()', 0)], depth=1))
+    out.append(T('(scale::Compact<()>, u8, Option<scale::Compact<()>>)', [('(scale::Compact(()), 9u8, Some(scale::Compact(())))', 'T[K(),9,V:Some#1{_:K()}]', 0), ('(scale::Compact(()), 9u8, None)', 'T[K(),9,V:None#0{}]', 1)], depth=2))
+    out.append(T('Vec<scale::Compact<()>>', [('vec![scale::Compact(()), scale::Compact(())]', 'S[K(),K()]', 0)], depth=2))
+    return out
+
+
 def types(tier):
     thorough = tier == 'thorough'
     L = leaves()
-    out = list(L) + unsized_tops() + flat_tuples() + lookalikes() + same_leaf_pairs()
+    out = list(L) + unsized_tops() + flat_tuples() + lookalikes() + same_leaf_pairs() + deep_nests()
     d1 = []
     for t in L:
         d1 += constructors(t, True)
